@@ -64,6 +64,21 @@ def run(rep):
         # (no grow-subset here: 2^B successor states per step would all be enumerated by the simulator)
         runs.append(dict(name="C08_big", configs=big, acts=[a for a in acts if a != "grow_set"], max_steps=8 if q else 12, mode="sim",
                          num=150 if q else 3000, check=False, sample=400 if q else 9000))
+    # a batch finished with the corrected function is grown again after the session (and, through a re-sow, the crop) went
+    # back to the failing one: the failed grow must leave the finished result alone (FailedGrowWritesNothing)
+    def regrown_after_regress(case):
+        acts_ = [ev["a"] for ev in case["hist"]]
+        if "regress_fn" not in acts_:
+            return False
+        k = acts_.index("regress_fn")
+        h = case["hist"]
+        # ... a grow(i) that raises although batch i was finished before the call
+        return any(h[j]["a"] == "grow" and h[j]["post"]["outcome"] == "raised" and h[j]["args"][0] not in h[j - 1]["post"]["missing"]
+                   for j in range(k + 1, len(h)))
+    runs.append(dict(name="C08_regress", configs=[crop.mk([3], bmode="count", bval=2, failing=[2]),
+                                                  crop.mk([2, 2], bmode="size", bval=3, failing=[4])],
+                     acts=["grow", "fix_fn", "regress_fn", "resow"], max_steps=6, mode="bfs", need=["DoRegressFn"],
+                     filter=regrown_after_regress, sample=250 if q else 3000))
     crop.drive(rep, runs, claims=lambda tag: tag.startswith(CLAIMS_PREFIX))
     # "at every moment": progress queries interleaved with growers at the level of file operations (CropFS.tla)
     from .. import cropfs
